@@ -143,7 +143,7 @@ fn gen_leaf(r: &mut Rng, n: usize) -> E {
 
 fn gen_e(r: &mut Rng, d: usize, n: usize) -> E {
     if d == 0 || r.below(5) == 0 { return gen_leaf(r, n); }
-    let mut sub = |r: &mut Rng| bx(gen_e(r, d - 1, n));
+    let sub = |r: &mut Rng| bx(gen_e(r, d - 1, n));
     match r.below(40) {
         0..=4 => { let (a, b) = gen_range(r); E::Anc(sub(r), a, b, false) }
         5 | 6 => { let (a, b) = gen_range(r); E::Anc(sub(r), a, b, true) }
@@ -538,7 +538,7 @@ fn check_one(out: &mut Out, g: &G, real: &Real, greq: &str, e: &E, sub: &mut (u6
 
 pub fn run(cfg: &Cfg, out: &mut Out) {
     let mut r = cfg.rng(19);
-    let graphs = cfg.n(90, 1500);
+    let graphs = cfg.n(180, 4000);
     let per_graph = 28;
     let mut sub = (0u64, 0u64);
     for gi in 0..graphs {
